@@ -23,6 +23,15 @@ def outcome(f):
         return classify(ex), type(ex).__name__ + ': ' + str(ex)[:120]
 
 
+def has_iter(v):
+    """does the abstract value contain a one-shot iterator (it cannot be checked twice)"""
+    if isinstance(v, list):
+        return (len(v) > 0 and v[0] == 'iter') or any(has_iter(x) for x in v)
+    if isinstance(v, dict):
+        return any(has_iter(x) for x in v.values())
+    return False
+
+
 def outcome_rep(f, n=3):
     """the same call n times on the same decorated object: a history-dependent deviation (caches, flags that stay
     set) shows as a later outcome that differs from the first; the deviating outcome is what is reported"""
@@ -73,7 +82,7 @@ def run_case(c):
         except BaseException as ex:
             res['out'], res['exc'] = 9, 'decoration failed: ' + repr(ex)[:100]
             return res
-        res['out'], res['exc'] = outcome_rep(lambda: mod.f(x=val))
+        res['out'], res['exc'] = outcome_rep(lambda: mod.f(x=val), 1 if has_iter(c['val']) else 3)
         res['body_ran'] = len(journal)
     elif obs == 'pedantic_star':
         # the value as FIRST element of *args of a function under two stacked decorators (positional call)
@@ -85,7 +94,7 @@ def run_case(c):
         except BaseException as ex:
             res['out'], res['exc'] = 9, 'decoration failed: ' + repr(ex)[:100]
             return res
-        res['out'], res['exc'] = outcome_rep(lambda: mod.f(val))
+        res['out'], res['exc'] = outcome_rep(lambda: mod.f(val), 1 if has_iter(c['val']) else 3)
         res['body_ran'] = len(journal)
     elif obs == 'dataclass':
         src = ('from pedantic import frozen_type_safe_dataclass\n@frozen_type_safe_dataclass\nclass D:\n    x: ANN\n')
@@ -94,7 +103,7 @@ def run_case(c):
         except BaseException as ex:
             res['out'], res['exc'] = 9, 'decoration failed: ' + repr(ex)[:100]
             return res
-        res['out'], res['exc'] = outcome_rep(lambda: mod.D(x=val))
+        res['out'], res['exc'] = outcome_rep(lambda: mod.D(x=val), 1 if has_iter(c['val']) else 3)
     return res
 
 
